@@ -90,7 +90,11 @@ pub fn ill_mutate(src: &str, rng: &mut Rng) -> String {
         if budget > 0 && c.is_ascii_digit() && !prev_ident {
             let mut j = i; while j < b.len() && (b[j].is_ascii_alphanumeric() || b[j] == '_') { j += 1; }
             let tok: String = b[i..j].iter().collect();
-            if rng.chance(1, 6) {
+            // not the literal that ends a recursion (`=[0, acc]`, `=0`): without its base case a generated loop squares its
+            // accumulator for ever and the run cannot be capped by steps
+            let before: String = b[..i].iter().rev().filter(|c| !c.is_whitespace()).take(2).collect();
+            let in_pattern_head = before.starts_with('=') || before.starts_with("[=");
+            if !in_pattern_head && rng.chance(1, 6) {
                 budget -= 1;
                 match kind {
                     0 => { out += if tok.starts_with("0x") { "7" } else { "0x07" }; }            // int <-> bin
@@ -107,6 +111,34 @@ pub fn ill_mutate(src: &str, rng: &mut Rng) -> String {
         if budget > 0 && kind == 2 && c == '=' && i + 1 < b.len() && b[i + 1] == '>' && rng.chance(1, 5) { budget -= 1; out.push(','); i += 2; continue; }
         out.push(c); i += 1;
     }
+    out
+}
+
+/// static triggers of the recorded type holes, read off the parsed program (used when the reference evaluator cannot run it)
+pub fn static_triggers(src: &str) -> Vec<&'static str> {
+    use quiver_compiler::ast::*;
+    fn seq(s: &Sequence, out: &mut Vec<&'static str>) { for c in &s.chains { chain(c, out); } }
+    fn chain(c: &Chain, out: &mut Vec<&'static str>) {
+        for (k, t) in c.terms.iter().enumerate() {
+            if matches!(t, Term::Match(_)) && k + 1 < c.terms.len() && !out.contains(&"failed_match_then_more_terms_in_chain") { out.push("failed_match_then_more_terms_in_chain"); }
+            term(t, out);
+        }
+    }
+    fn expr(e: &Expression, out: &mut Vec<&'static str>) { for b in &e.branches { seq(&b.condition, out); if let Some(c) = &b.consequence { seq(c, out); } } }
+    fn term(t: &Term, out: &mut Vec<&'static str>) {
+        match t {
+            Term::Tuple(tp) => for f in &tp.fields { if let FieldValue::Chain(c) = &f.value { chain(c, out); } },
+            Term::String(_, segs) => for sg in segs { if let StrSegment::Hole(e) = sg { expr(e, out); } },
+            Term::Block(e) => expr(e, out),
+            Term::Function(f) => { if !f.type_parameters.is_empty() && !out.contains(&"generic_function_applied") { out.push("generic_function_applied"); } if let Some(b) = &f.body { expr(b, out); } }
+            Term::Spawn(inner, _) => term(inner, out),
+            Term::Select(Some(cs), _) => for c in cs { chain(c, out); },
+            Term::Access(a) | Term::Reference(a) => { if matches!(a.source, Some(AccessSource::Import(_))) && !out.contains(&"generic_function_applied") { out.push("generic_function_applied"); } if matches!(a.source, Some(AccessSource::TailCall(_))) && !out.contains(&"tail_call_present") { out.push("tail_call_present"); } }
+            _ => {}
+        }
+    }
+    let mut out = vec![];
+    if let Ok(p) = quiver_compiler::parse(src) { for st in &p.statements { if let Statement::Expression(s) = st { seq(s, &mut out); } } }
     out
 }
 
@@ -152,6 +184,8 @@ pub fn judge(src: &str, b: &qv::Builtins, mods: &HashMap<String, String>, use_re
     if use_reference {
         let (reference, counters) = refsem::evaluate(src, mods);
         for e in ["nil_bound_by_bare_binder", "failed_match_then_more_terms_in_chain", "tail_call_argument_outside_parameter_type", "generic_function_applied"] { if counters.get(e).copied().unwrap_or(0) > 0 { j.events.push(e); } }
+        // outside the reference evaluator: fall back to the triggers visible in the program text
+        if matches!(reference, Outcome::Unsupported(_) | Outcome::Budget) { for e in static_triggers(src) { if e != "tail_call_present" && !j.events.contains(&e) { j.events.push(e); } } }
         if let Outcome::TypeError(m) = reference { j.problems.push((format!("ill-typed:{}", m), format!("the reference evaluator hit a dynamic type error ({}) in a program the compiler accepted", m))); }
     }
     j
@@ -170,6 +204,7 @@ pub fn check(rep: &Report) {
     let n_ill = if quick { 20_000 } else { 400_000 };
     let n_scen = if quick { 1_500 } else { 30_000 };
     let total = items.len() + n_mut + n_gen + n_ill + n_scen;
+    let watch = crate::pool::Watch::new("C01", 30);
     crate::pool::run_indexed(total, 512, |j| {
         let mut use_reference = true;
         let (family, src): (&str, String) = if j < items.len() { ("corpus", items[j].src.clone()) }
@@ -177,7 +212,10 @@ pub fn check(rep: &Report) {
         else if j < items.len() + n_mut + n_gen { let mut rng = Rng::derive(rep.seed, "C01-gen", 0, j as u64); let fuel = *rng.pick(&[4i64, 8, 16, 30, 60]); let nilb = rng.chance(1, 8); let mut g = Gen::new(&mut rng, fuel); g.allow_nil_binds = nilb; (if nilb { "generated-nil-binders" } else { "generated" }, g.program()) }
         else if j < items.len() + n_mut + n_gen + n_ill { let mut rng = Rng::derive(rep.seed, "C01-ill", 0, j as u64); let fuel = *rng.pick(&[4i64, 8, 16, 30]); let s = { let mut g = Gen::new(&mut rng, fuel); g.program() }; ("generated-ill-mutated", ill_mutate(&s, &mut rng)) }
         else { let mut rng = Rng::derive(rep.seed, "C01-scen", 0, j as u64); let cfg = crate::scen::GenCfg { max_nodes: 6, max_depth: 3, confluent: true, fail_permille: 150, binaries: true }; use_reference = false; ("process-scenarios", crate::scen::generate(&mut rng, &cfg).emit()) };
-        let jd = match crate::pool::catch(|| judge(&src, &b, &mods, use_reference)) { Ok(v) => v, Err(p) => { if p.contains("stack") { rep.count("harness_stack_overflow", 1); return; } Judged { accepted: true, problems: vec![("panic".into(), p)], inconclusive: None, events: vec![], value: false } } };
+        watch.enter(j, &src);
+        let jd0 = crate::pool::catch(|| judge(&src, &b, &mods, use_reference));
+        watch.leave(j);
+        let jd = match jd0 { Ok(v) => v, Err(p) => { if p.contains("stack") { rep.count("harness_stack_overflow", 1); return; } Judged { accepted: true, problems: vec![("panic".into(), p)], inconclusive: None, events: vec![], value: false } } };
         if !jd.accepted { rep.count(&format!("{}_rejected_by_compiler", family), 1); return; }
         rep.eval(1); rep.count(&format!("{}_accepted_and_run", family), 1); rep.distinct(cv_hash(&src));
         if jd.value { rep.count("produced_a_value_checked_against_inferred_type", 1); }
